@@ -5,14 +5,19 @@ Prelude for the definitions that harness/props/c16.py translates from prover/ome
 -/
 namespace Holpy.C16.Py
 
-/-- `l[i]` with Python's negative-index wrap; an out-of-range index reads 0 (every use in the
-translated functions is guarded by an `assert` that fails in that case). -/
-def idx (l : List Int) (i : Int) : Int :=
-  if 0 ≤ i then l.getD i.toNat 0 else l.getD (l.length - (-i).toNat) 0
+/-- `l[i]` is defined for `-len ≤ i < len`; outside Python raises IndexError.  The translator puts
+this guard in front of every statement that contains a subscript. -/
+def inRange (l : List Int) (i : Int) : Bool := decide (-(l.length : Int) ≤ i) && decide (i < (l.length : Int))
 
-/-- `l[i] = v` (same index convention; out of range leaves the list unchanged). -/
+/-- `l[i]` with Python's negative-index wrap (only used under `inRange`; reads 0 outside). -/
+def idx (l : List Int) (i : Int) : Int :=
+  if 0 ≤ i then l.getD i.toNat 0
+  else if (-i).toNat ≤ l.length then l.getD (l.length - (-i).toNat) 0 else 0
+
+/-- `l[i] = v` (only used under `inRange`; leaves the list unchanged outside). -/
 def setIdx (l : List Int) (i : Int) (v : Int) : List Int :=
-  if 0 ≤ i then l.set i.toNat v else l.set (l.length - (-i).toNat) v
+  if 0 ≤ i then l.set i.toNat v
+  else if (-i).toNat ≤ l.length then l.set (l.length - (-i).toNat) v else l
 
 def len (l : List Int) : Int := (l.length : Int)
 
